@@ -37,6 +37,29 @@ CLAIMS = {
             'WeightedRotation bodies are compared as normal forms; the Const accessors are enumerated over an index window. Proof level applies to the '
             'kernel tables and factor rules; the WeightedRotation and accessor rules are structural necessary conditions.',
             'static analysis: abstract interpretation into trigonometric-polynomial tables; product-word matrix domain with BLAS callee summaries; AST normal-form comparison'),
+    'C08': ('proof',
+            'Every lifecycle function (constructors, destructor, copy/move assignment, assignProxy<W,P> for 3 wrappers x 9 proxies, proxy constructors, '
+            'SetBackingStore, make_aligned, factories, cache helpers) is abstractly interpreted from every abstract entry state (empty / self-owned / externally backed, '
+            'dimension 2 or 3, alias patterns) and every environment choice (block address mod 32, cache contents and capacity); the ownership invariant, per-operation '
+            'postconditions and the movable-flag discipline are checked on every exit. Preservation from every invariant-satisfying state gives all histories by induction.',
+            'static analysis: ownership typestate by abstract interpretation over enumerated abstract entry states, heap blocks as tokens; inductive invariant'),
+    'C09': ('proof',
+            'For every statement form {=,+=,-=,construct} x 20 expression entry overloads x target kind x operand kinds/value categories x alias pattern x dimension 2,3 '
+            'the statement is abstractly interpreted with symbolic data and the target is compared with the operation evaluated into a fresh temporary; failure cases must '
+            'throw with the target untouched; every kernel writes each slot once and never reads the target; trait table vs kernel dependence; wrapper semantics; guarantee forwarding.',
+            'static analysis: abstract interpretation with symbolic component data over enumerated storage/alias states; single-assignment and trait/kernel agreement rules'),
+    'C12': ('other',
+            'Structural necessary conditions on GetEigenSystem: on every path (d=2..6, both orderings) the outputs are those of gsl_eigen_hermv applied to exactly the C01 matrix of the vector, '
+            'sorted ascending iff requested, nothing else writes them, and the body contains no division/root/argument function of input-dependent quantities. The solver\'s accuracy is trusted, so this is not a proof of the numerical statement.',
+            'static analysis: path enumeration by abstract interpretation with callee summaries; syntactic rule for writes/divisions outside the trusted solver'),
+    'C15': ('other',
+            'Token accounting on every exit (incl. library exceptions) of every explored lifecycle path; GSL allocate/free pairing on every path to every exit of every function that allocates, with a may-throw call graph; '
+            'RAII holder rule; every kernel family interpreted on exact-size abstract blocks (extent check); alignment hints only under the asserted flag. UB inside GSL and arithmetic overflow are declined, hence level other.',
+            'static analysis: ownership typestate with token accounting; intraprocedural resource-pairing over the AST with a may-throw call graph; extent-checked abstract interpretation of kernels'),
+    'C16': ('proof',
+            'For every explored (operation, entry state, choice) path with N allocations the path is re-interpreted with std::bad_alloc raised at the k-th allocation point, k=1..N (exhaustive over allocation sites x paths); '
+            'on the exceptional edge the invariant, the token accounting and the values of bystander vectors are checked.',
+            'static analysis: fault-edge enumeration over allocation sites in the ownership typestate engine'),
     'C11': ('proof',
             'The four filter families are abstractly interpreted for d=2..6 with data-dependent branches kept as guards; the guarded table of every level pair is compared with the documented piecewise definition (threshold, strictness, ramp, cutoff), the phase/frequency of pair k with that of the consumer kernel, the interval form with the exact average; every division by an input-dependent quantity must be dominated by guards excluding zero (35 listed known findings).',
             'static analysis: abstract interpretation with guarded (ITE) values; guarded-table comparison; guard-dominance rule for divisions'),
